@@ -334,10 +334,10 @@ Definition jax_shift_right_arithmetic (sb : ity) (x s : Z) :=
   wrap sb (wrap (true, snd sb) x / 2 ^ Z.min s (snd sb - 1)).
 (* unsigned element types: the plugin emits a LOGICAL BitShift *)
 Definition lowered_sra_unsigned (sb : ity) (x s : Z) := o_shr sb x s.
-Theorem sra_unsigned_correct_refuted :
+Theorem sra_unsigned_prerepair_refuted :
   exists x s, in_int U8 x /\ 0 <= s /\ lowered_sra_unsigned U8 x s <> jax_shift_right_arithmetic U8 x s.
 Proof. exists 128, 1. split; [|split]; vm_compute; try discriminate; split; discriminate. Qed.
-Theorem sra_unsigned_correct_partial sb x s : 0 < snd sb -> shift_dom sb -> 0 <= x < 2 ^ (snd sb - 1) -> 0 <= s ->
+Theorem sra_unsigned_prerepair_partial sb x s : 0 < snd sb -> shift_dom sb -> 0 <= x < 2 ^ (snd sb - 1) -> 0 <= s ->
   lowered_sra_unsigned sb x s = jax_shift_right_arithmetic sb x s.
 Proof.
   intros Hb Hd Hx Hs. unfold lowered_sra_unsigned, o_shr, jax_shift_right_arithmetic, bits.
@@ -607,10 +607,10 @@ Proof.
         assert ((2 * n + d) / (2 * d) = f + 1) as -> by (symmetry; apply Z.div_unique with (r := 0); nia). lia.
 Qed.
 
-(* THE STATEMENT (false of the unchanged plugin): forall q, frac_ok q -> lowered_round q = jax_round_away q *)
-Theorem round_away_correct_refuted : exists q, frac_ok q /\ lowered_round q <> jax_round_away q.
+(* HISTORY — the lowering before the repair; THE STATEMENT (false of that plugin): forall q, frac_ok q -> lowered_round q = jax_round_away q *)
+Theorem round_away_prerepair_refuted : exists q, frac_ok q /\ lowered_round q <> jax_round_away q.
 Proof. exists (1, 2). split; [reflexivity|]. vm_compute. discriminate. Qed.
-Theorem round_away_correct_iff q : frac_ok q ->
+Theorem round_away_prerepair_iff q : frac_ok q ->
   (lowered_round q = jax_round_away q <-> round_modes_agree q = true).
 Proof.
   destruct q as [n d]; unfold frac_ok, lowered_round, o_round, round_modes_agree; cbn [fst snd]; intro Hd.
@@ -622,8 +622,8 @@ Proof.
     + apply Z.ltb_ge in E2. rewrite (proj2 (Z.eqb_eq _ _)) by lia. simpl.
       destruct (Z.even (n / d)), (n / d <? 0); simpl; split; intro; try reflexivity; try discriminate; lia.
 Qed.
-Theorem round_away_correct_partial q : frac_ok q -> round_modes_agree q = true -> lowered_round q = jax_round_away q.
-Proof. intros Hq H. now apply (round_away_correct_iff q Hq). Qed.
+Theorem round_away_prerepair_partial q : frac_ok q -> round_modes_agree q = true -> lowered_round q = jax_round_away q.
+Proof. intros Hq H. now apply (round_away_prerepair_iff q Hq). Qed.
 
 (* the repaired lowering (.scratch/c01k/fix_round.diff): Round is kept except on exact halfway cases of |x|,
      Where(Equal(Sub(Abs x, Floor(Abs x)), 0.5), Mul(Sign x, Add(Floor(Abs x), 1)), Round x) *)
@@ -655,10 +655,15 @@ Proof.
     destruct (half_up_floor (Z.abs n) d Hd) as [Hq _]. rewrite Hq.
     rewrite (proj2 (Z.ltb_ge (2 * (Z.abs n mod d)) d)) by lia. reflexivity.
   - apply Z.eqb_neq in E. assert (Ht : 2 * (Z.abs n mod d) <> d) by nia.
-    apply (round_away_correct_partial (n, d) Hd). unfold round_modes_agree; cbn [fst snd].
+    apply (round_away_prerepair_partial (n, d) Hd). unfold round_modes_agree; cbn [fst snd].
     rewrite (proj2 (Z.eqb_neq (2 * (n mod d)) d)) by (intro H; apply Ht; apply (tie_abs n d Hd); exact H).
     reflexivity.
 Qed.
+
+(* the lowering of /repo since 3fcaa9c *)
+Definition lowered_round_away (q : frac) : Z := repaired_round_away q.
+Theorem round_away_correct q : frac_ok q -> lowered_round_away q = jax_round_away q.
+Proof. exact (repaired_round_away_correct q). Qed.
 
 (* ================================================================ 9. integer_pow, convert_element_type *)
 (* lax.integer_pow: repeated wrapped multiplication *)
@@ -699,7 +704,7 @@ Theorem convert_of_bool_correct t b : lowered_convert_of_bool t b = jax_convert_
 (* jax.nn.one_hot(i, n)[j] = (i == j): any i outside [0, n) gives an all-zero row.
    The plugin emits OneHot(Cast_int64(i), n, [0, 1]); ONNX OneHot counts negative indices from the end *)
 Definition jax_one_hot (n i j : Z) : Z := if i =? j then 1 else 0.
-Definition lowered_one_hot (sb : ity) (n i j : Z) : Z := o_onehot n 0 1 (cast_idx sb i) j.
+Definition prerepair_one_hot (sb : ity) (n i j : Z) : Z := o_onehot n 0 1 (cast_idx sb i) j.
 Lemma cast_idx_id sb i : In sb std_itys -> sb <> U64 -> in_int sb i -> cast_idx sb i = i.
 Proof.
   intros Hin Hne Hi. unfold cast_idx.
@@ -708,21 +713,21 @@ Proof.
   simpl in Hin. destruct Hin as [<-|[<-|[<-|[<-|[<-|[<-|[<-|[<-|[]]]]]]]]];
     try congruence; unfold in_int, int_lo, int_hi in *; simpl in *; lia.
 Qed.
-(* THE STATEMENT (false of the unchanged plugin) *)
-Theorem one_hot_correct_refuted :
-  exists i j, in_int I32 i /\ 0 <= j < 4 /\ lowered_one_hot I32 4 i j <> jax_one_hot 4 i j.
+(* HISTORY — the lowering before the repair; THE STATEMENT (false of that plugin) *)
+Theorem one_hot_prerepair_refuted :
+  exists i j, in_int I32 i /\ 0 <= j < 4 /\ prerepair_one_hot I32 4 i j <> jax_one_hot 4 i j.
 Proof. exists (-1), 3. split; [split; vm_compute; discriminate|]. split; [lia|]. vm_compute. discriminate. Qed.
-Theorem one_hot_correct_iff sb n i j : In sb std_itys -> sb <> U64 -> in_int sb i -> 0 < n -> 0 <= j < n ->
-  (lowered_one_hot sb n i j = jax_one_hot n i j <-> ~ (- n <= i < 0 /\ i + n = j)).
+Theorem one_hot_prerepair_iff sb n i j : In sb std_itys -> sb <> U64 -> in_int sb i -> 0 < n -> 0 <= j < n ->
+  (prerepair_one_hot sb n i j = jax_one_hot n i j <-> ~ (- n <= i < 0 /\ i + n = j)).
 Proof.
-  intros Hin Hne Hi Hn Hj. unfold lowered_one_hot, jax_one_hot. rewrite cast_idx_id by auto. unfold o_onehot.
+  intros Hin Hne Hi Hn Hj. unfold prerepair_one_hot, jax_one_hot. rewrite cast_idx_id by auto. unfold o_onehot.
   destruct (- n <=? i) eqn:E1, (i <? n) eqn:E2, (i <? 0) eqn:E3, (i =? j) eqn:E4; simpl;
     try destruct (i + n =? j) eqn:E5; split; intro H; try reflexivity; try discriminate; try lia;
     try (exfalso; apply H; lia).
 Qed.
-Theorem one_hot_correct_partial sb n i j : In sb std_itys -> sb <> U64 -> in_int sb i -> 0 < n -> 0 <= j < n ->
-  (0 <= i \/ i < - n) -> lowered_one_hot sb n i j = jax_one_hot n i j.
-Proof. intros Hin Hne Hi Hn Hj Hd. apply one_hot_correct_iff; auto. lia. Qed.
+Theorem one_hot_prerepair_partial sb n i j : In sb std_itys -> sb <> U64 -> in_int sb i -> 0 < n -> 0 <= j < n ->
+  (0 <= i \/ i < - n) -> prerepair_one_hot sb n i j = jax_one_hot n i j.
+Proof. intros Hin Hne Hi Hn Hj Hd. apply one_hot_prerepair_iff; auto. lia. Qed.
 (* a repaired lowering masks negative indices out before OneHot (.scratch/c01k/fix_one_hot.diff):
    Where(Less(i, 0), depth, i) — depth is out of range for OneHot and gives an all-off row *)
 Definition repaired_one_hot (sb : ity) (n i j : Z) : Z :=
@@ -737,6 +742,18 @@ Proof.
   - rewrite E3. destruct (- n <=? i) eqn:E1, (i <? n) eqn:E2, (i =? j) eqn:E4; simpl; try reflexivity; lia.
 Qed.
 
+(* the lowering of /repo since ef51d4a: signed index types are masked, unsigned ones go to OneHot directly *)
+Definition lowered_one_hot (sb : ity) (n i j : Z) : Z :=
+  if is_signed sb then repaired_one_hot sb n i j else prerepair_one_hot sb n i j.
+Theorem one_hot_correct sb n i j : In sb std_itys -> sb <> U64 -> in_int sb i -> 0 < n -> 0 <= j < n ->
+  lowered_one_hot sb n i j = jax_one_hot n i j.
+Proof.
+  intros Hin Hne Hi Hn Hj. unfold lowered_one_hot. destruct (is_signed sb) eqn:Hs.
+  - now apply repaired_one_hot_correct.
+  - apply one_hot_prerepair_partial; auto. left.
+    destruct sb as [sg b]; unfold is_signed in Hs; simpl in Hs; subst sg. unfold in_int, int_lo in Hi. simpl in Hi. lia.
+Qed.
+
 (* ================================================================ 11. dynamic_slice start index (one axis) *)
 (* operand extent dim, slice size size (1 <= size <= dim), start index i of integer type sb.
    JAX: a negative index counts from the end (i + dim), then the start is CLAMPED into [0, dim - size];
@@ -745,24 +762,24 @@ Qed.
 Definition jax_dynamic_slice (sb : ity) (dim size i : Z) : Z * Z :=
   let i1 := if i <? 0 then wrap sb (i + dim) else i in
   (Z.min (Z.max i1 0) (dim - size), size).
-Definition lowered_dynamic_slice (sb : ity) (dim size i : Z) : Z * Z :=
+Definition prerepair_dynamic_slice (sb : ity) (dim size i : Z) : Z * Z :=
   let i1 := o_where (o_less i 0) (o_add sb i dim) i in
   o_slice1 dim (cast_idx sb i1) (o_add I64 (cast_idx sb i1) size).
-(* THE STATEMENT (false of the unchanged plugin) *)
-Theorem dynamic_slice_correct_refuted :
-  exists i, in_int I32 i /\ lowered_dynamic_slice I32 6 3 i <> jax_dynamic_slice I32 6 3 i.
+(* HISTORY — the lowering before the repair; THE STATEMENT (false of that plugin) *)
+Theorem dynamic_slice_prerepair_refuted :
+  exists i, in_int I32 i /\ prerepair_dynamic_slice I32 6 3 i <> jax_dynamic_slice I32 6 3 i.
 Proof. exists 5. split; [split; vm_compute; discriminate|]. vm_compute. discriminate. Qed.
 Example dynamic_slice_witnesses :
-  (lowered_dynamic_slice I32 6 3 5, jax_dynamic_slice I32 6 3 5, lowered_dynamic_slice I32 6 3 (-2), jax_dynamic_slice I32 6 3 (-2))
+  (prerepair_dynamic_slice I32 6 3 5, jax_dynamic_slice I32 6 3 5, prerepair_dynamic_slice I32 6 3 (-2), jax_dynamic_slice I32 6 3 (-2))
   = ((5, 1), (3, 3), (4, 2), (3, 3)).
 Proof. reflexivity. Qed.
 (* correct whenever the (normalised) start needs no clamping *)
-Theorem dynamic_slice_correct_partial sb dim size i :
+Theorem dynamic_slice_prerepair_partial sb dim size i :
   sb = I32 \/ sb = I64 -> in_int sb i -> 1 <= size <= dim -> dim < 2 ^ 31 ->
   (0 <= i <= dim - size \/ - dim <= i <= - size) ->
-  lowered_dynamic_slice sb dim size i = jax_dynamic_slice sb dim size i.
+  prerepair_dynamic_slice sb dim size i = jax_dynamic_slice sb dim size i.
 Proof.
-  intros Hsb Hi Hsz Hdim Hdom. unfold lowered_dynamic_slice, jax_dynamic_slice, o_where, o_less, o_add.
+  intros Hsb Hi Hsz Hdim Hdom. unfold prerepair_dynamic_slice, jax_dynamic_slice, o_where, o_less, o_add.
   assert (Hstd : In sb std_itys /\ sb <> U64 /\ 0 < snd sb) by (destruct Hsb; subst; simpl; repeat split; auto; try discriminate; lia).
   destruct Hstd as (Hstd & Hne & Hb).
   set (i1 := if i <? 0 then wrap sb (i + dim) else i).
@@ -800,6 +817,175 @@ Proof.
   f_equal; lia.
 Qed.
 
+(* the lowering of /repo since 7604d8b *)
+Definition lowered_dynamic_slice (sb : ity) (dim size i : Z) : Z * Z := repaired_dynamic_slice sb dim size i.
+Theorem dynamic_slice_correct sb dim size i :
+  sb = I32 \/ sb = I64 -> in_int sb i -> 1 <= size <= dim -> dim < 2 ^ 31 ->
+  lowered_dynamic_slice sb dim size i = jax_dynamic_slice sb dim size i.
+Proof. exact (repaired_dynamic_slice_correct sb dim size i). Qed.
+
+(* ================================================================ 12. repairs of the remaining findings (pending patches
+   .scratch/c01k/fix_neg_unsigned.diff, fix_shift_signed.diff, fix_sra_unsigned.diff, fix_integer_pow.diff): the graphs
+   those patches emit, proved correct at full strength; tie S accepts them next to the current lowered_k *)
+Definition utwin (sb : ity) : ity := (false, snd sb).
+
+(* lax.neg on unsigned types: Sub(0, x) *)
+Definition repaired_neg (sb : ity) (x : Z) := if is_signed sb then o_neg sb x else o_sub sb 0 x.
+Theorem repaired_neg_correct sb x : 0 < snd sb -> in_int sb x -> repaired_neg sb x = jax_neg sb x.
+Proof.
+  intros Hb Hx. unfold repaired_neg. destruct (is_signed sb); [exact (neg_correct sb x Hb Hx)|].
+  unfold o_sub. rewrite Z.sub_0_l. exact (neg_correct sb x Hb Hx).
+Qed.
+
+(* shift_left / shift_right_logical on signed types: Cast to the unsigned twin, BitShift, Cast back *)
+Definition repaired_shift_left (sb : ity) (x s : Z) :=
+  if is_signed sb then o_cast sb (o_shl (utwin sb) (o_cast (utwin sb) x) (o_cast (utwin sb) s)) else o_shl sb x s.
+Definition repaired_shift_right_logical (sb : ity) (x s : Z) :=
+  if is_signed sb then o_cast sb (o_shr (utwin sb) (o_cast (utwin sb) x) (o_cast (utwin sb) s)) else o_shr sb x s.
+
+Lemma utwin_cast_amount sb s : 0 < snd sb -> is_signed sb = true -> in_int sb s -> 0 <= s -> o_cast (utwin sb) s = s.
+Proof.
+  intros Hb Hs Hi H0. unfold o_cast, utwin. apply wrap_id; [exact Hb|].
+  destruct sb as [sg b]; unfold is_signed in Hs; cbn [fst snd] in *; subst sg.
+  pose proof (pow2_pos (b - 1) ltac:(lia)). pose proof (pow2_split b Hb).
+  unfold in_int, int_lo, int_hi in *. lia.
+Qed.
+
+Theorem repaired_shift_left_correct sb x s : 0 < snd sb -> in_int sb s -> 0 <= s ->
+  repaired_shift_left sb x s = jax_shift_left sb x s.
+Proof.
+  intros Hb Hi H0. unfold repaired_shift_left. destruct (is_signed sb) eqn:Hs; [|now apply shift_left_correct].
+  rewrite (utwin_cast_amount sb s) by auto.
+  unfold o_shl, jax_shift_left, bits; cbn [utwin snd].
+  destruct (s <? snd sb); [|apply wrap_id; [exact Hb|]].
+  - unfold o_cast. apply wrap_congr; [exact Hb|].
+    pose proof (pow2_pos (snd sb) ltac:(lia)).
+    rewrite (wrap_mod (false, snd sb)) by exact Hb. cbn [snd]. rewrite Z.shiftl_mul_pow2 by auto.
+    unfold wrap at 1. apply Z.mul_mod_idemp_l. lia.
+  - destruct sb as [sg b]; unfold is_signed in Hs; cbn [fst snd] in *; subst sg.
+    pose proof (pow2_pos (b - 1) ltac:(lia)). unfold in_int, int_lo, int_hi. lia.
+Qed.
+
+Theorem repaired_shift_right_logical_correct sb x s : 0 < snd sb -> in_int sb x -> in_int sb s -> 0 <= s ->
+  repaired_shift_right_logical sb x s = jax_shift_right_logical sb x s.
+Proof.
+  intros Hb Hx Hi H0. unfold repaired_shift_right_logical. destruct (is_signed sb) eqn:Hs.
+  - rewrite (utwin_cast_amount sb s) by auto.
+    unfold o_shr, jax_shift_right_logical, bits; cbn [utwin snd].
+    destruct (s <? snd sb).
+    + rewrite Z.shiftr_div_pow2 by auto. reflexivity.
+    + apply wrap_id; [exact Hb|]. destruct sb as [sg b]; unfold is_signed in Hs; cbn [fst snd] in *; subst sg.
+      pose proof (pow2_pos (b - 1) ltac:(lia)). unfold in_int, int_lo, int_hi. lia.
+  - apply shift_right_logical_correct; auto.
+Qed.
+
+(* lax.integer_pow on integers: repeated Mul (exact wrap) instead of Pow; exponent 0 keeps Pow *)
+Fixpoint mul_chain (sb : ity) (x : Z) (k : nat) : Z :=
+  match k with O => x | S k' => o_mul sb (mul_chain sb x k') x end.
+Definition repaired_integer_pow (sb : ity) (x : Z) (n : nat) : Z :=
+  match n with O => o_pow sb x 0 | S k => mul_chain sb x k end.
+Theorem repaired_integer_pow_correct sb x n : 0 < snd sb -> in_int sb x ->
+  repaired_integer_pow sb x n = jax_integer_pow sb x n.
+Proof.
+  intros Hb Hx. rewrite <- (integer_pow_correct sb x n Hb). unfold lowered_integer_pow, o_pow.
+  destruct n as [|k]; [reflexivity|]. unfold repaired_integer_pow.
+  induction k as [|k IH].
+  - simpl mul_chain. change (Z.of_nat 1) with 1. rewrite Z.pow_1_r. symmetry. now apply wrap_id.
+  - simpl mul_chain. rewrite IH. unfold o_mul. rewrite wrap_mul_l by exact Hb.
+    f_equal. rewrite (Nat2Z.inj_succ (S k)), Z.pow_succ_r by lia. lia.
+Qed.
+
+(* lax.shift_right_arithmetic on unsigned types: logical shift OR-ed with the replicated top bit,
+     sc = Min(s, bits); (x >> sc) | (ones << (bits - sc)) * (sc <> 0) * (x >> (bits - 1)) *)
+Definition repaired_sra_unsigned (sb : ity) (x s : Z) : Z :=
+  let b := snd sb in
+  let sc := o_min s b in
+  let shifted := o_shr sb x sc in
+  let mask := o_mul sb (o_shl sb (2 ^ b - 1) (o_sub sb b sc)) (o_cast_of_bool sb (o_not (o_equal sc 0))) in
+  o_bitor sb shifted (o_mul sb mask (o_shr sb x (b - 1))).
+
+Theorem repaired_sra_unsigned_correct sb x s : 0 < snd sb -> shift_dom sb -> in_int sb x -> in_int sb s ->
+  repaired_sra_unsigned sb x s = jax_shift_right_arithmetic sb x s.
+Proof.
+  intros Hb Hd Hx Hs. destruct sb as [sg b]; unfold shift_dom, is_signed in Hd; cbn [fst snd] in *. subst sg.
+  set (ub := (false, b)).
+  pose proof (pow2_pos (b - 1) ltac:(lia)) as HM. pose proof (pow2_split b Hb) as HP.
+  assert (Hbb : b < 2 ^ b) by (apply Z.pow_gt_lin_r; lia).
+  unfold in_int, int_lo, int_hi in Hx, Hs.
+  assert (Hub : forall v, 0 <= v < 2 ^ b -> wrap ub v = v).
+  { intros v Hv. apply wrap_id; [exact Hb|]. unfold ub, in_int, int_lo, int_hi. lia. }
+  assert (Htop : o_shr ub x (b - 1) = x / 2 ^ (b - 1)).
+  { unfold o_shr, bits; cbn [snd ub]. rewrite (proj2 (Z.ltb_lt (b - 1) b)) by lia. apply Z.shiftr_div_pow2. lia. }
+  destruct (Z.lt_ge_cases x (2 ^ (b - 1))) as [Hlow | Hhigh].
+  - (* top bit clear: the fill vanishes and the logical shift is right *)
+    rewrite <- (sra_unsigned_prerepair_partial ub x s Hb eq_refl ltac:(cbn [snd ub]; lia) ltac:(lia)).
+    unfold repaired_sra_unsigned, lowered_sra_unsigned; cbn [snd ub]. cbv zeta.
+    rewrite Htop, (Z.div_small x (2 ^ (b - 1))) by lia.
+    unfold o_mul at 1. rewrite Z.mul_0_r, (Hub 0) by lia.
+    unfold o_bitor. rewrite Z.lor_0_r. unfold o_min, o_shr, bits; cbn [snd ub].
+    destruct (Z.lt_ge_cases s b) as [Hlt | Hge].
+    + rewrite Z.min_l by lia. rewrite (proj2 (Z.ltb_lt s b)) by lia. apply Hub.
+      rewrite Z.shiftr_div_pow2 by lia. pose proof (pow2_pos s ltac:(lia)).
+      split; [apply Z.div_pos; lia|]. apply Z.le_lt_trans with x; [apply Z.div_le_upper_bound; nia | lia].
+    + rewrite Z.min_r by lia. rewrite (proj2 (Z.ltb_ge b b)), (proj2 (Z.ltb_ge s b)) by lia. apply Hub. lia.
+  - (* top bit set *)
+    assert (Hxs : wrap (true, b) x = x - 2 ^ b).
+    { unfold wrap. replace (x + 2 ^ (b - 1)) with (x - 2 ^ (b - 1) + 1 * 2 ^ b) by lia.
+      rewrite Z.mod_add by lia. rewrite Z.mod_small by lia. lia. }
+    unfold repaired_sra_unsigned, jax_shift_right_arithmetic; cbn [snd ub]. cbv zeta. rewrite Hxs, Htop.
+    assert (Ht1 : x / 2 ^ (b - 1) = 1) by (symmetry; apply Z.div_unique with (r := x - 2 ^ (b - 1)); lia).
+    rewrite Ht1. unfold o_min.
+    set (mask := o_mul ub (o_shl ub (2 ^ b - 1) (o_sub ub b (Z.min s b))) (o_cast_of_bool ub (o_not (o_equal (Z.min s b) 0)))).
+    assert (Hfill : o_mul ub mask 1 = mask).
+    { unfold o_mul at 1. rewrite Z.mul_1_r. unfold mask, o_mul. apply wrap_wrap. exact Hb. }
+    rewrite Hfill. unfold mask. clear Hfill mask.
+    destruct (Z.eq_dec s 0) as [Hz | Hnz]; [| destruct (Z.lt_ge_cases s b) as [Hlt | Hge]].
+    + subst s. rewrite (Z.min_l 0 b), (Z.min_l 0 (b - 1)) by lia.
+      assert (Hm0 : o_mul ub (o_shl ub (2 ^ b - 1) (o_sub ub b 0)) (o_cast_of_bool ub (o_not (o_equal 0 0))) = 0).
+      { unfold o_mul, o_cast_of_bool, o_not, o_equal. rewrite Z.eqb_refl. cbn [negb]. cbv iota.
+        rewrite Z.mul_0_r. apply Hub. lia. }
+      assert (Hsh : o_shr ub x 0 = x).
+      { unfold o_shr, bits; cbn [snd ub]. rewrite (proj2 (Z.ltb_lt 0 b)) by lia. apply Z.shiftr_0_r. }
+      unfold o_bitor. rewrite Hm0, Hsh, Z.lor_0_r, Z.pow_0_r, Z.div_1_r.
+      apply wrap_congr; [exact Hb|]. cbn [snd ub].
+      replace x with (x - 2 ^ b + 1 * 2 ^ b) at 1 by lia. apply Z.mod_add. lia.
+    + rewrite (Z.min_l s b), (Z.min_l s (b - 1)) by lia.
+      pose proof (pow2_pos s ltac:(lia)) as H2s. pose proof (pow2_pos (b - s) ltac:(lia)) as H2bs.
+      assert (Hsplit : 2 ^ b = 2 ^ (b - s) * 2 ^ s) by (rewrite <- Z.pow_add_r by lia; f_equal; lia).
+      assert (Hsh : o_shr ub x s = x / 2 ^ s).
+      { unfold o_shr, bits; cbn [snd ub]. rewrite (proj2 (Z.ltb_lt s b)) by lia. apply Z.shiftr_div_pow2. lia. }
+      assert (Hq : 0 <= x / 2 ^ s < 2 ^ (b - s)).
+      { split; [apply Z.div_pos; lia|]. apply Z.div_lt_upper_bound; [lia|]. rewrite Z.mul_comm, <- Hsplit. lia. }
+      assert (Hmask : o_mul ub (o_shl ub (2 ^ b - 1) (o_sub ub b s)) (o_cast_of_bool ub (o_not (o_equal s 0)))
+                      = (2 ^ s - 1) * 2 ^ (b - s)).
+      { unfold o_mul, o_cast_of_bool, o_not, o_equal.
+        rewrite (proj2 (Z.eqb_neq s 0)) by lia. cbn [negb]. cbv iota. rewrite Z.mul_1_r.
+        unfold o_sub. rewrite (Hub (b - s)) by lia.
+        unfold o_shl, bits; cbn [snd ub]. rewrite (proj2 (Z.ltb_lt (b - s) b)) by lia.
+        rewrite wrap_wrap by exact Hb. rewrite Z.shiftl_mul_pow2 by lia.
+        replace ((2 ^ b - 1) * 2 ^ (b - s)) with ((2 ^ s - 1) * 2 ^ (b - s) + (2 ^ (b - s) - 1) * 2 ^ b) by (rewrite Hsplit; ring).
+        unfold ub, wrap. rewrite Z.mod_add by lia. apply Z.mod_small. rewrite Hsplit. nia. }
+      unfold o_bitor. rewrite Hmask, Hsh, lor_low_high by lia.
+      apply wrap_congr; [exact Hb|]. cbn [snd ub].
+      replace ((x - 2 ^ b) / 2 ^ s) with (x / 2 ^ s - 2 ^ (b - s)).
+      2:{ replace (x - 2 ^ b) with (x + (- 2 ^ (b - s)) * 2 ^ s) by (rewrite Hsplit; ring). rewrite Z.div_add by lia. lia. }
+      replace (x / 2 ^ s + (2 ^ s - 1) * 2 ^ (b - s)) with (x / 2 ^ s - 2 ^ (b - s) + 1 * 2 ^ b) by (rewrite Hsplit; ring).
+      apply Z.mod_add. lia.
+    + rewrite (Z.min_r s b), (Z.min_r s (b - 1)) by lia.
+      assert (Hsh : o_shr ub x b = 0).
+      { unfold o_shr, bits; cbn [snd ub]. rewrite (proj2 (Z.ltb_ge b b)) by lia. reflexivity. }
+      assert (Hmask : o_mul ub (o_shl ub (2 ^ b - 1) (o_sub ub b b)) (o_cast_of_bool ub (o_not (o_equal b 0))) = 2 ^ b - 1).
+      { unfold o_mul, o_cast_of_bool, o_not, o_equal.
+        rewrite (proj2 (Z.eqb_neq b 0)) by lia. cbn [negb]. cbv iota. rewrite Z.mul_1_r.
+        unfold o_sub. rewrite Z.sub_diag. rewrite (Hub 0) by lia.
+        unfold o_shl, bits; cbn [snd ub]. rewrite (proj2 (Z.ltb_lt 0 b)) by lia.
+        rewrite Z.shiftl_0_r, wrap_wrap by exact Hb. apply Hub. lia. }
+      unfold o_bitor. rewrite Hsh, Hmask, Z.lor_0_l.
+      assert ((x - 2 ^ b) / 2 ^ (b - 1) = -1) as -> by (symmetry; apply Z.div_unique with (r := x - 2 ^ (b - 1)); lia).
+      apply wrap_congr; [exact Hb|]. cbn [snd ub].
+      replace (2 ^ b - 1) with (-1 + 1 * 2 ^ b) by lia. apply Z.mod_add. lia.
+Qed.
+
 (* ================================================================ non-vacuity *)
 Example nonvacuous_div : in_int I32 (-7) /\ in_int I32 2 /\ div_dom I32 (-7) 2 /\ lowered_div I32 (-7) 2 = -3.
 Proof. repeat split; vm_compute; try discriminate; try reflexivity. intros (_ & H & _). discriminate. Qed.
@@ -811,7 +997,7 @@ Example nonvacuous_round : (lowered_round (5, 2), jax_round_away (5, 2), jax_rou
 Proof. reflexivity. Qed.
 Example nonvacuous_round_agree : round_modes_agree (3, 2) = true /\ round_modes_agree (5, 2) = false /\ round_modes_agree (7, 3) = true.
 Proof. repeat split. Qed.
-Example nonvacuous_one_hot : map (lowered_one_hot I32 4 2) [0; 1; 2; 3] = [0; 0; 1; 0] /\ map (lowered_one_hot I32 4 (-1)) [0; 1; 2; 3] = [0; 0; 0; 1]
+Example nonvacuous_one_hot : map (prerepair_one_hot I32 4 2) [0; 1; 2; 3] = [0; 0; 1; 0] /\ map (prerepair_one_hot I32 4 (-1)) [0; 1; 2; 3] = [0; 0; 0; 1]
   /\ map (repaired_one_hot I32 4 (-1)) [0; 1; 2; 3] = [0; 0; 0; 0].
 Proof. repeat split. Qed.
 Example nonvacuous_sra : (jax_shift_right_arithmetic U8 128 1, jax_shift_right_arithmetic I8 (-8) 1, jax_shift_right_arithmetic I8 (-8) 200, jax_shift_right_arithmetic I32 8 32) = (192, -4, -1, 0).
